@@ -154,6 +154,7 @@ type runawayPanic struct{}
 
 // Host is the harness state attached to one LState.
 type Host struct {
+	threadCancel        bool
 	keptErr             *lua.ApiError
 	keptObj             lua.LValue
 	keptText            string
@@ -226,6 +227,10 @@ type Options struct {
 	// BackgroundFirst: the state starts under context.Background() (whose Done channel is nil); the program's
 	// first statement must be reattach(), which attaches the simulated context in mid-run.
 	BackgroundFirst bool
+	// ThreadCancelFunc (with OnThread, MainContext and WithContext): no context is attached to the thread; it keeps
+	// the child context NewThread derived for it, and the simulated cancellation calls the cancel function
+	// NewThread returned. The reason such a context gives is context.Canceled.
+	ThreadCancelFunc bool
 }
 
 func defaultLuaOptions() lua.Options {
@@ -307,8 +312,13 @@ func NewHost(o Options) *Host {
 		if o.MainContext && o.WithContext {
 			L.SetContext(NewSimContext())
 		}
-		th, _ := L.NewThread()
-		if o.WithContext {
+		th, cancel := L.NewThread()
+		if o.WithContext && o.MainContext && o.ThreadCancelFunc {
+			// h.Ctx is only the simulator's handle here: firing it calls the thread's cancel function
+			h.Ctx = NewSimContext()
+			h.Ctx.AfterFunc(cancel)
+			h.threadCancel = true
+		} else if o.WithContext {
 			h.Ctx = NewSimContext()
 			th.SetContext(h.Ctx)
 		}
@@ -719,7 +729,7 @@ func (h *Host) RunProto(p *lua.FunctionProto) (out Outcome) {
 		} else {
 			out.TopError = model.NormalizeString(err.Error())
 		}
-		if strings.Contains(out.RawError, CancelReason) {
+		if strings.Contains(out.RawError, CancelReason) || h.threadCancel && h.Reattached == 0 && strings.Contains(out.RawError, context.Canceled.Error()) {
 			out.ErrIsCancel = true
 			out.TopError = "<cancelled>"
 		}
